@@ -44,7 +44,7 @@ func main() {
 	if *funcs {
 		for _, fn := range p.OwnFuncs {
 			if fn.Synthetic == "" {
-				fmt.Println(FuncKey(fn))
+				fmt.Println(FuncKey(fn) + "\t" + sigString(fn))
 			}
 		}
 		return
